@@ -705,8 +705,25 @@ class Splicer:
                         k += 1
                     ins(toks[k].end, " " + lkv["iter"] + ":", "A2")
                 if "kw" in lkv and toks[kwi].text != lkv["kw"]:
-                    raise SpliceError("lost anchor: %s loop %d is `%s`, contract expects `%s`" %
-                                      (key, idx, toks[kwi].text, lkv["kw"]))
+                    # R17: `loop { if C { break; } BODY }` is the `while !(C) { BODY }` the contract was written for (the exit
+                    # test is the first statement of the body and nothing precedes it)
+                    ok17 = False
+                    if lkv["kw"] == "while" and toks[kwi].text == "loop" and toks[bri + 1].text == "if":
+                        d17, j17 = 0, bri + 2
+                        while j17 < len(toks) and not (toks[j17].text == "{" and d17 == 0):
+                            d17 += toks[j17].text in ("(", "[")
+                            d17 -= toks[j17].text in (")", "]")
+                            j17 += 1
+                        if toks[j17 + 1].text == "break" and toks[j17 + 2].text == ";" and toks[j17 + 3].text == "}" \
+                                and toks[j17 + 4].text != "else":
+                            cond = text[toks[bri + 2].start:toks[j17 - 1].end]
+                            edits.append((toks[kwi].start, toks[kwi].end, "while !(" + cond + ")", "R17a", {}))
+                            edits.append((toks[bri + 1].start, toks[j17 + 3].end, "", "R17b", {}))
+                            info.rewrites.append("R17@%s:%d" % (os.path.basename(sf.path), sf.line_of(base + toks[kwi].start)))
+                            ok17 = True
+                    if not ok17:
+                        raise SpliceError("lost anchor: %s loop %d is `%s`, contract expects `%s`" %
+                                          (key, idx, toks[kwi].text, lkv["kw"]))
                 ghost_check(slines, "loop %d" % idx)
                 ins(toks[bri].start, "\n" + block + "\n", "loop", **meta)
             elif name == "closure":
